@@ -29,32 +29,88 @@ T = {
             "swap_gate signs are recomputed per dense element from leg charges; ncon networks with swaps are evaluated for every "
             "contraction order and compared with an einsum carrying explicit parity matrices; fkron is compared with JW matrices.",
             "Trusts vmon/groups.py parities and NumPy einsum."),
-    "C06": ("reference-model monitor: dense vectors/matrices of MPS/MPO expression trees", "see DESIGN.md 4/C06", "NumPy dense algebra; to_tensor cross-validated in-run"),
-    "C07": ("reference-model monitor: explicit Jordan-Wigner matrices vs generate_mpo / measure_* / rdm / sample", "see DESIGN.md 4/C07", "vmon/jw.py convention as documented by the library"),
-    "C08": ("reference-model + history monitor over canonisation/truncation programs", "see DESIGN.md 4/C08", "NumPy SVD of the dense state"),
-    "C09": ("online monitor of dmrg_ sweeps against dense sector Hamiltonian", "see DESIGN.md 4/C09", "NumPy eigvalsh on the sector"),
-    "C10": ("online monitor of tdvp_ snapshots against scipy expm", "see DESIGN.md 4/C10", "scipy.linalg.expm"),
-    "C11": ("reference-model monitor: expm of JW Hamiltonians vs gates; dense gate application vs apply_gate_", "see DESIGN.md 4/C11", "vmon/pepsref.py JW model; scipy expm"),
-    "C12": ("reference-model monitor: dense expectation values vs exact environments; metric PSD monitor", "see DESIGN.md 4/C12", "dense state from to_tensor validated in-run"),
+    "C06": ("reference-model monitor: dense vectors/matrices of MPS/MPO expression trees",
+            "Random expression trees over MPS/MPO leaves (sums with amplitudes in any container order, scalars incl. 0, products, conj/T/H, "
+            "reverse_sites, product states, mps_from_tensor, zipper, compression_, central-block states, site tensors scaled over 40 orders of "
+            "magnitude, copies swept in place) are evaluated by the library and by NumPy on harness-built dense images; measure_overlap / "
+            "measure_mpo are compared with the dense inner products, all relatively.", "NumPy dense algebra; to_tensor cross-validated in-run"),
+    "C07": ("reference-model monitor: explicit Jordan-Wigner matrices vs generate_mpo / measure_* / rdm / sample",
+            "generate_mpo and the LaTeX Generator (also as one Generator object used through a history with in-place edits of returned "
+            "objects) are compared with sums of explicit Jordan-Wigner matrices for every operator family and symmetry, amplitudes over 24 "
+            "orders of magnitude, zero terms, custom fermionic maps; measure_1site/2site/nsite (operator dicts and pair lists in any "
+            "insertion order, empty containers), rdm (with factors) and sample are compared with the dense state.",
+            "vmon/jw.py convention as documented by the library"),
+    "C08": ("reference-model + history monitor over canonisation/truncation programs",
+            "Random programs of canonize_/orthogonalize_site_/absorb_central_/diagonalize_central_/truncate_ (all directions, normalize, "
+            "option sets incl. per-sector dictionaries, defaults omitted) on MPS/MPO with graded, rank-deficient, vanishing and scaled "
+            "states: after every step the dense state, norm, isometry of site tensors, Schmidt values and entropies (also while a central "
+            "block is present on non-canonical states) and the reported discarded weight are judged relatively against NumPy.",
+            "NumPy SVD of the dense state"),
+    "C09": ("online monitor of dmrg_ sweeps against dense sector Hamiltonian",
+            "Every record yielded by dmrg_ (1site/2site, iterator and direct forms, omitted arguments, opts_eigs with and without 'which', H "
+            "as MPO / list in any order / scaled over 16 orders of magnitude / zero / identity, start states with factors, project= in all "
+            "documented entry forms) is judged online: variational bound and monotone energy against the dense sector spectrum, reported "
+            "energy = <psi|H|psi> of the returned state, normalisation, bookkeeping, penalised levels and orthogonality.",
+            "NumPy eigvalsh on the sector"),
+    "C10": ("online monitor of tdvp_ snapshots against scipy expm",
+            "Every snapshot yielded by tdvp_ (1site/2site/12site, 2nd/4th order, real/imaginary/complex u, time-dependent callables, time "
+            "grids in all documented forms, omitted arguments, scaled H and states) is judged online: norm and energy conservation, charge "
+            "sector, canonical form, time bookkeeping, exactness on the full manifold against expm of the dense sector generator, and the "
+            "observed convergence order in dt.", "scipy.linalg.expm"),
+    "C11": ("reference-model monitor: expm of JW Hamiltonians vs gates; dense gate application vs apply_gate_",
+            "Predefined and user gates are compared with expm of explicit Jordan-Wigner Hamiltonians; apply_gate_ (nn, distant, MPO gates, "
+            "across the fermionic seam, with ancillas, scaled and zero gates) and PEPS sums are compared with dense application on the "
+            "state vector of random shallow circuits on lattices up to 3x3 (incl. 1x1).", "vmon/pepsref.py JW model; scipy expm"),
+    "C12": ("reference-model monitor: dense expectation values vs exact environments; metric PSD monitor",
+            "EnvBoundaryMPS, EnvCTM (after exact expansion) and EnvBP (loop-free lattices) expectation values of 1-site, nn, 2-site and "
+            "n-site operators (all container forms and orders, windows, repeated sites, defaults) and sample probabilities are compared "
+            "with the dense state; NTU bond metrics are monitored for hermiticity and positive semi-definiteness; non-binding evolution "
+            "steps are compared with the exactly evolved state.", "dense state from to_tensor validated in-run"),
     "C13": ("specification monitor on truncation masks (set-theoretic oracle) + dense error identity",
             "The boolean mask returned by truncation_mask / *_with_truncation is judged against the set-theoretic specification "
             "(limits respected, maximal weight, ties free) over a grid of limits and spectra; the truncation error identity is "
             "checked on dense operands.", "Specification written from the docstrings."),
     "C14": ("differential monitor: same program under two configurations must give identical observations",
             "Random operation programs are executed under every tensordot_policy x default_fusion x lazy-perturbation and compared "
-            "step by step on (legs, charge, dense values); contract_with_unroll is compared across paths/unrollings with einsum.",
+            "step by step on (legs, charge, dense values); contract_with_unroll is compared across paths/unrollings with einsum; "
+            "families of alike-fused tensors are added in every operand order; a high-volume family of tiny contractions is run under "
+            "the three policies from plain, hard- and meta-fused legs.",
             "Trusts nothing but equality of observations (and NumPy einsum for contract_with_unroll)."),
     "C15": ("history monitor: byte-level digests of every argument before/after every interposed call; copy-independence histories",
-            "All arguments of every interposed public call are snapshotted before and after; only documented in-place receivers are exempt.",
+            "All arguments of every interposed public call are snapshotted before and after; only documented in-place receivers are exempt.  "
+            "Workloads: operation programs, the other checks' generators, the repository's test files (thorough), and histories on copies "
+            "of tensors, MPS (central block), PEPS, environments, DoublePepsTensor, read-only batteries and caller-owned containers.",
             "Exemption table derived from docstrings (printed in evidence)."),
     "C16": ("history + differential monitor on the lru caches: recomputation on first hit, digest on every hit, cold/warm/perturbed runs",
             "Every cache hit is compared with a fresh computation (first hit per key) and with the digest at insertion (every hit); "
-            "programs are re-run cold, size-1, warm after adversarial twins and with injected clear/resize.",
+            "programs are re-run cold, size-1, warm after adversarial twins (other symmetry / statistics / fusion history, user-defined and "
+            "derived symmetry classes) and with injected clear/resize; operations are repeated after in-place updates of operands and of "
+            "moved SlicedLeg windows.",
             "Bit-exact equality; single-threaded BLAS."),
-    "C17": ("round-trip monitor over all serialisation paths with observational equality", "see DESIGN.md 4/C17", "observation = legs, n, dtype, dense, follow-up contraction"),
-    "C18": ("reference-model monitor: dense expm/eig/solve on the sector vs Krylov solvers", "see DESIGN.md 4/C18", "scipy/numpy dense linear algebra"),
-    "C19": ("exhaustive enumeration monitor against independent group laws; Leg argument grid vs validity predicate", "see DESIGN.md 4/C19", "vmon/groups.py"),
-    "C20": ("exhaustive enumeration monitor against a brute-force lattice model", "see DESIGN.md 4/C20", "brute-force Z^2 model"),
+    "C17": ("round-trip monitor over all serialisation paths with observational equality",
+            "Tensors (diagonal, fused, lazily transposed, empty, all-zero, complex), MPS/MPO (central block, hostile factors incl. 0, N=1), "
+            "PEPS on every lattice type and environments go through to_dict/from_dict at every level and dictionary generation, "
+            "split/combine, np.save, HDF5 and legacy paths, defaults and config overrides, one dictionary reused for several loads; the "
+            "restored object must be observationally identical (legs incl. history, pending permutation semantics, charge, dtype, values, "
+            "follow-up contractions), the caller's dictionary untouched, incompatible config/meta rejected, meta-vector map linear and "
+            "norm preserving.", "observation = legs, n, dtype, dense, follow-up contraction"),
+    "C18": ("reference-model monitor: dense expm/eig/solve on the sector vs Krylov solvers",
+            "expmv, eigs and lin_solver on maps built from random symmetric operators (Hermitian and not, dimension up to a few hundred, "
+            "one-dimensional sectors, zero / identity maps, fused and lazily transposed start vectors incl. differing fusion histories, "
+            "norm scales 1e-30..1e30, all t incl. 0 and sub-stepping, all ncv / which / flags, omitted arguments) are compared with "
+            "scipy expm / eig / solve of the harness-built dense image; scale invariance and linearity clauses.",
+            "scipy/numpy dense linear algebra"),
+    "C19": ("exhaustive enumeration monitor against independent group laws; Leg argument grid vs validity predicate",
+            "For all seven symmetry classes the group axioms, fuse() in batch and single form, add_charges, canonicalisation of "
+            "non-canonical / int32 / empty inputs and large U(1) charges are enumerated exhaustively over charge boxes and compared with "
+            "independent group laws; Leg construction is run over an argument grid against a validity predicate; leg unions, products and "
+            "their inverses against set / group-law models.", "vmon/groups.py"),
+    "C20": ("exhaustive enumeration monitor against a brute-force lattice model",
+            "All SquareLattice and full_patch TriangularLattice sizes up to 5x5 with each boundary, Checkerboard, all RectangularUnitcell "
+            "patterns up to the planned sizes (exhaustive for small, sampled for 4x4) are compared with a brute-force model of Z^2: "
+            "nn_site inverse pairs, bonds, nn_bond_dirn, f_ordered, site2index periods, accept/reject of patterns; Lattice/Peps containers "
+            "are driven through get/set/patch/apply histories, also as two containers related by copies, against a dict model.",
+            "brute-force Z^2 model"),
 }
 
 
